@@ -545,4 +545,7 @@ def container_rules(P, R, prefix='C19'):
 
 def run(P, R, tier):
     container_rules(P, R)
+    # the element count is a full-width counter
+    rules.narrowing_fields(P, R, 'C19.WID.1', ('src/set.c',))
+    rules.counter_widths(P, R, 'C19.WID.2', recs=('set',))
     return EXPLANATION, ASSUMPTIONS
